@@ -264,6 +264,9 @@ class PB(ExprBuilder):
         if isinstance(e.func, ast.Attribute):
             recv = self.build(e.func.value, env)
             m = e.func.attr
+            if recv[0] == 'call' and recv[1] == '.compile' and len(recv) == 3 and len(recv[2]) == 2 and recv[2][0] == ('sym', 're') and \
+                    m in ("search", "match", "fullmatch", "sub", "subn", "split", "findall") and not e.keywords:
+                return ('call', '.' + m, recv[2] + tuple(args))         # compiled pattern method = module function on the pattern
             if m in REDUCERS and not args:
                 kw = _kws(e, self, env)
                 return self._reduce(m, recv, kw)
@@ -458,6 +461,13 @@ class PEval:
     def run(self, fdef, env=None, stmts=None):
         self.paths = []
         e = dict(env or {})
+        consts = getattr(fdef, "_modconsts", None)
+        if consts:
+            own = {a.arg for a in ast.walk(fdef.args) if isinstance(a, ast.arg)}
+            used = {n.id for n in ast.walk(fdef) if isinstance(n, ast.Name)}
+            for nm, v in consts.items():
+                if nm in used and nm not in own and nm not in e:
+                    e[nm] = self.ex(v, {})
         self._walk(list(stmts if stmts is not None else fdef.body), e, [], [])
         return self.paths
 
